@@ -19,7 +19,7 @@ func genC16e(rt *rapid.T) CaseC03 {
 		Authors: rapid.IntRange(1, 2).Draw(rt, "authors"),
 		PreSync: rapid.Bool().Draw(rt, "presync"),
 		Kind:    rapid.SampledFrom([]string{"nonwriter", "nonwriter", "nonwriter-otherlog", "stolen-key-field"}).Draw(rt, "kind"),
-		Route:   rapid.SampledFrom([]string{"sync", "topic", "direct", "ancestor", "ancestor", "ancestor-refs"}).Draw(rt, "route"),
+		Route:   rapid.SampledFrom([]string{"sync", "topic", "direct", "ancestor", "ancestor", "ancestor-refs", "loadmore", "snapqueue"}).Draw(rt, "route"),
 		Honest:  rapid.IntRange(0, 2).Draw(rt, "honest"),
 		Chain:   rapid.IntRange(1, 3).Draw(rt, "chain"),
 	}
